@@ -83,7 +83,7 @@ func c22Gen(t *rapid.T) c22Case {
 	}
 	n := rapid.IntRange(0, 4).Draw(t, "mutations")
 	for i := 0; i < n; i++ {
-		switch rapid.IntRange(0, 9).Draw(t, "mop") {
+		switch rapid.IntRange(0, 11).Draw(t, "mop") {
 		case 0, 1: // replace a token
 			f := strings.Fields(text)
 			if len(f) == 0 {
@@ -149,6 +149,19 @@ func c22Gen(t *rapid.T) c22Case {
 			}
 		case 9: // truncate
 			text = text[:rapid.IntRange(0, len(text)).Draw(t, "cut")]
+		case 10: // truncate right behind a delimiter (an unterminated construct at the end of input)
+			var at []int
+			for i := 0; i < len(text); i++ {
+				if strings.IndexByte("/{'\"\\[(<%*", text[i]) >= 0 {
+					at = append(at, i+1)
+				}
+			}
+			if len(at) > 0 {
+				text = text[:at[rapid.IntRange(0, len(at)-1).Draw(t, "cutAt")]]
+			}
+		case 11: // end the text with an opening delimiter, possibly inside a code block
+			tails := []string{"/", "{", "{ /", "{ a /", "{ '", "{ \"", "{ /*", "{ //", "'", "\"", "/*", "/[", "/\\", "(?=", "<", "%", "[", "{ \\"}
+			text = strings.TrimRight(text, " \n") + " " + tails[rapid.IntRange(0, len(tails)-1).Draw(t, "tail")]
 		}
 	}
 	if len(text) > 60000 {
